@@ -1,8 +1,12 @@
 #!/bin/sh
+# run the thorough tier of every check (or of those named on the command line, in that order) on the unchanged tree
 cd "$(dirname "$0")/.."
-for p in C09 C12 C15 C16 C17 C19 C11 C13 C14 C18 C20 C10 C04 C05 C06 C03 C02 C08 C07 C01; do
-  echo "=== $p"; mkdir -p ev_thorough
+mkdir -p ev_thorough
+for p in ${@:-C09 C12 C15 C16 C17 C19 C11 C13 C14 C18 C20 C10 C04 C05 C06 C03 C02 C08 C07 C01}; do
+  echo "=== $p"
   t0=$(date +%s)
-  VERIF_EVIDENCE_DIR=./ev_thorough VERIF_REPLAY_DIR=./ev_thorough timeout 7200 ./check $p --tier thorough 2>&1 | tail -3 | cut -c1-400
-  echo "rc=$? secs=$(( $(date +%s) - t0 ))"
+  VERIF_EVIDENCE_DIR=./ev_thorough VERIF_REPLAY_DIR=./ev_thorough timeout 7200 ./check $p --tier thorough > ev_thorough/$p.out 2>&1
+  rc=$?
+  tail -3 ev_thorough/$p.out | cut -c1-400
+  echo "rc=$rc secs=$(( $(date +%s) - t0 ))"
 done
